@@ -111,6 +111,19 @@ pub fn run_exec(op: &str, args: &[Sx]) -> Result<String, String> {
             Ok(p) => format!("ok {}", astser::program(&p)),
             Err(e) => format!("parse-error {}", hex(&e.to_string())),
         }),
+        // (exec <id> parse <src>): tree, or error code + line + rendered message
+        "parse" => Ok(match parser::parse(&src) {
+            Ok(p) => format!("ok {}", astser::program(&p)),
+            Err(e) => {
+                let code = format!("{:?}", e.code);
+                let name: String = code.chars().take_while(|c| c.is_alphanumeric()).collect();
+                let line = match &e.loc {
+                    rrss::frontend::parser::ParseErrorLocation::Token(t) => t.range.start().line,
+                    rrss::frontend::parser::ParseErrorLocation::Line(l) => *l,
+                };
+                format!("err {} {} {}", name, line, hex(&e.to_string()))
+            }
+        }),
         "run" => {
             let stdin = args.get(1).ok_or("stdin")?.string()?;
             let wb = opt_usize(args.get(2).ok_or("wbudget")?)?;
